@@ -371,5 +371,9 @@ def run(repo: Repo, rep: Report, tier: str) -> None:
     from .c04 import struct_rw_fold_rule
 
     struct_rw_fold_rule(repo, rep, "C06.R9", 3 if tier == "thorough" else 2)
+    from .c08 import generated_globals_rule
+
+    generated_globals_rule(repo, rep, "C06.R10")
+
 
 
